@@ -203,7 +203,7 @@ Definition unpack_field (cf : lconf) (c : cid) (f : cfield) (s : slots) (off ipp
             end
           else FOk (slot_set s (FN i) VNone) off []
       end
-  | CEm _ => FOk s off []
+  | CEm _ => FOk s off [TChunk off []]     (* ghost: pack appends an empty chunk here *)
   end.
 
 (* the field loop of unpack_impl, with its two except arms *)
